@@ -158,6 +158,12 @@ static_assert(sizeof(FP<true, true, 0>) > pika::util::detail::function_storage_s
 static_assert(!std::is_copy_constructible_v<FP<false, false, 0>>);
 
 // -------------------------------------------------------------------------------- senders
+static bool g_conv = false;    // case option conv=1, see operation_state::start
+struct conv_int
+{
+    int v;
+    operator int() const { throw payload_error{v}; }
+};
 template <bool Big, bool Copy>
 struct SP
 {
@@ -201,6 +207,13 @@ struct SP
         void start() & noexcept
         {
             if (mode == 0) ex::set_value(std::move(r), int(val));
+            else if (mode == 1 && g_conv)
+            {
+                // case option conv=1: the error completion of a mode-1 sender is realised as a VALUE completion whose
+                // conversion to the wrapper's value type throws payload_error(val): the type-erased receiver must turn
+                // that into set_error(payload_error(val)) - the same completion the model gives a mode-1 sender
+                ex::set_value(std::move(r), conv_int{val});
+            }
             else if (mode == 1)
                 ex::set_error(std::move(r), std::make_exception_ptr(payload_error{val}));
             else
@@ -576,6 +589,7 @@ static std::string do_op(op_t const& o)
 static void run_one(case_t const& c)
 {
     std::string kinds = c.gets("kinds", "FQUA");
+    g_conv = c.geti("conv", 0) != 0;
     N = int(kinds.size() > 6 ? 6 : kinds.size());
     for (int i = 0; i < N; ++i) S[i].kind = kinds[i];
     if (c.threads.empty())
